@@ -370,6 +370,12 @@ func (w *World) Step(op Op) *StepResult {
 	}
 	if op.Kind == OpReload && res.ReloadErr == "" {
 		if c, err := configs.LoadSchedulerConfigFromByteArray([]byte(op.Conf)); err == nil {
+			if Excluded(GroupUsageLostShape) && w.Conf != nil {
+				// listed known finding: the tracked usage of a group that lost a limit is not compared from here on
+				for _, g := range DroppedGroupLimits(LimitsOf(w.Conf), LimitsOf(c)) {
+					w.taintGroup(g, w.Last)
+				}
+			}
 			w.Conf, w.ConfY = c, op.Conf
 		}
 	}
@@ -381,6 +387,7 @@ func (w *World) Step(op Op) *StepResult {
 	}
 	post := TakeSnapshot(w.CC, PartName)
 	w.Last = post
+	w.propagateGroupTaint(post)
 	w.runOracles(pre, op, res, post)
 	return res
 }
